@@ -401,8 +401,36 @@ func (e *clsEnd) readSome(p []byte, wd time.Duration, where string) (n int, err 
 	return
 }
 
-// drainUntilError reads until an error is returned; returns the error.
-func (e *clsEnd) drainUntilError(wd time.Duration, where string) error {
+// drainUntilError reads until an error is returned; returns the error. With viaReadBytes the first (possibly blocking)
+// read is a zero-copy ReadBytes(1), the rest are copying reads.
+func (e *clsEnd) drainUntilError(wd time.Duration, where string, viaReadBytes bool) (err error) {
+	if viaReadBytes {
+		func() {
+			defer func() {
+				if r := recover(); r != nil {
+					e.x.rec(e.name, "ReadBytes.panic", "%v", r)
+					e.x.violate("end %s: ReadBytes(1) (%s) panicked: %v\n%s", e.name, where, r, truncate(string(debug.Stack()), 1500))
+					err = fmt.Errorf("panic: %v", r)
+				}
+			}()
+			e.st.SetReadDeadline(time.Now().Add(wd))
+			e.x.rec(e.name, "ReadBytes.call", "1 (%s)", where)
+			var b []byte
+			b, err = e.st.BufferReader().ReadBytes(1)
+			e.x.rec(e.name, "ReadBytes.ret", "n=%d err=%v", len(b), err)
+			if err == nil {
+				off := atomic.LoadUint64(&e.recvOff)
+				if len(b) != 1 || b[0] != keyedByte(e.peer.key, off) {
+					e.x.violate("end %s: byte %d of the received stream is wrong (ReadBytes(1) returned %v)", e.name, off, b)
+				}
+				atomic.AddUint64(&e.recvOff, uint64(len(b)))
+				e.st.BufferReader().ReleasePreviousRead()
+			}
+		}()
+		if err != nil {
+			return err
+		}
+	}
 	p := make([]byte, 8192)
 	for zero := 0; ; {
 		n, err := e.readSome(p, wd, where)
@@ -489,19 +517,19 @@ type clsCallbacks struct {
 	// "close inside OnData"
 	closeArmed  int32
 	closeFired  int32
-	closeHow    int   // 1 once, 2 twice, 3 together with a user goroutine
-	consumePct  int   // share of the buffered bytes consumed before Close
+	closeHow    int           // 1 once, 2 twice, 3 together with a user goroutine
+	consumePct  int           // share of the buffered bytes consumed before Close
 	userGo      chan struct{} // closed right before Close is called inside OnData (how==3)
 	closeDoneCh chan struct{} // closed when the in-callback close sequence finished
 	goCh        chan struct{} // closed when no user goroutine is flushing on this stream any more (Close and Flush of one end never overlap)
 	goOnce      sync.Once
 
 	// "Close from a user goroutine while OnData is running"
-	gateArmed  int32
-	gateUsed   int32
-	insideCh   chan struct{} // closed when OnData is inside and waiting
-	releaseCh  chan struct{} // closed by the user goroutine after its Close returned
-	relOnce    sync.Once
+	gateArmed int32
+	gateUsed  int32
+	insideCh  chan struct{} // closed when OnData is inside and waiting
+	releaseCh chan struct{} // closed by the user goroutine after its Close returned
+	relOnce   sync.Once
 
 	// "close inside OnRemoteClose"
 	rcArmed int32
@@ -745,10 +773,13 @@ func (x *clsExec) startNoise(n int) bool {
 				return
 			}
 			p := make([]byte, 4096)
-			for {
+			for zero := 0; zero < 3; {
 				sv.SetReadDeadline(time.Now().Add(200 * time.Millisecond))
 				n, err := sv.Read(p)
 				atomic.AddInt64(&recvB, int64(n))
+				if n == 0 && err == nil {
+					zero++ // a broken tree may answer (0, nil) on a closed stream: never spin on it
+				}
 				if err == ErrTimeout {
 					if atomic.LoadInt32(&nz.stop) != 0 {
 						return
@@ -877,21 +908,21 @@ func clsSortedEnds(m map[string]*clsEnd) []*clsEnd {
 	return out
 }
 
-
 // ---------------------------------------------------------------------------------------------
 // one execution of one scenario
 
 type clsReaderRes struct{ err error }
 
 type clsPlan struct { // everything PRNG-determined is drawn up front (the generator is not shared between goroutines)
-	sizesA  map[string][]int // messages an end flushes right before / well before its Close
-	sizesB  map[string][]int // messages the non-closing end flushes concurrently
-	delayUs map[string]int   // delay of each closing goroutine after the barrier
-	delay2  map[string]int
-	trigger int
-	pct     int
-	blocked bool // the non-closing synchronous end has a reader blocked in Read before the close happens
-	hello   int
+	sizesA       map[string][]int // messages an end flushes right before / well before its Close
+	sizesB       map[string][]int // messages the non-closing end flushes concurrently
+	delayUs      map[string]int   // delay of each closing goroutine after the barrier
+	delay2       map[string]int
+	trigger      int
+	pct          int
+	viaReadBytes bool
+	blocked      bool // the non-closing synchronous end has a reader blocked in Read before the close happens
+	hello        int
 }
 
 func clsMsgSize(rng *rand.Rand) int {
@@ -951,6 +982,7 @@ func clsRun(c *checkCtx, sc clsScenario, timing int) *clsExec {
 	}
 	pl.blocked = rng.Intn(2) == 0
 	pl.hello = 1 + rng.Intn(200)
+	pl.viaReadBytes = rng.Intn(2) == 0
 	fallback := sc.Transport == "fallback"
 	keepHoarded := fallback && rng.Intn(3) == 0
 	useNoise := (fallback && !keepHoarded) || (!fallback && rng.Intn(3) == 0)
@@ -961,7 +993,7 @@ func clsRun(c *checkCtx, sc clsScenario, timing int) *clsExec {
 	}
 
 	// ---- pair
-	p, err := newSessionPair(pairOpt{noAccept: true, queueCap: queueCap, memfd: rng.Intn(2) == 0,
+	p, err := newSessionPair(pairOpt{noAccept: true, queueCap: queueCap, memfd: rng.Intn(2) == 0, initTO: 20 * time.Second, sizes: smallSizes(1024, 20, 16384, 80),
 		serverCfg: func(cfg *Config) { cfg.listenCallback = x.reg }})
 	if err != nil {
 		x.inconclusive("pair: %v", err)
@@ -1158,7 +1190,7 @@ func clsRun(c *checkCtx, sc clsScenario, timing int) *clsExec {
 				ch := make(chan clsReaderRes, 1)
 				readerCh[e.name] = ch
 				go func(e *clsEnd) {
-					ch <- clsReaderRes{e.drainUntilError(2*x.watchdog, "reader started before the close")}
+					ch <- clsReaderRes{e.drainUntilError(2*x.watchdog, "reader started before the close", pl.viaReadBytes)}
 				}(e)
 			}
 		}
@@ -1434,7 +1466,7 @@ func clsRun(c *checkCtx, sc clsScenario, timing int) *clsExec {
 				}
 				delete(readerCh, e.name)
 			} else {
-				rerr = e.drainUntilError(x.watchdog, "drain after the peer closed")
+				rerr = e.drainUntilError(x.watchdog, "drain after the peer closed", pl.viaReadBytes)
 			}
 			got := atomic.LoadUint64(&e.recvOff)
 			switch {
@@ -1504,7 +1536,9 @@ func clsRun(c *checkCtx, sc clsScenario, timing int) *clsExec {
 		}
 		l, r := atomic.LoadInt32(&e.cb.nLocal), atomic.LoadInt32(&e.cb.nRemote)
 		switch {
-		case l+r == 0:
+		case l+r == 0 && !x.eventually(fmt.Sprintf("end %s: one of OnLocalClose/OnRemoteClose is called for the closure (Close calls returned: %d)", e.name, atomic.LoadInt32(&e.closeReturned)),
+			func() bool { return atomic.LoadInt32(&e.cb.nLocal)+atomic.LoadInt32(&e.cb.nRemote) > 0 }):
+		case l+r == 0 && false:
 			x.violate("end %s: neither OnLocalClose nor OnRemoteClose was called although the stream was closed (Close calls returned: %d)", e.name, atomic.LoadInt32(&e.closeReturned))
 		case l+r > 1:
 			x.violate("end %s: close callbacks fired %d times (OnLocalClose %d, OnRemoteClose %d)", e.name, l+r, l, r)
